@@ -645,7 +645,7 @@ def run(ctx):
     if facts is None:
         report_tgen()
         return
-    npk = 6 if ctx.quick else 96
+    npk = 5 if ctx.quick else 96
     ntests = (11, 14) if ctx.quick else (16, 24)
     maxlen = 25 if ctx.quick else 40
     base = os.path.join(ctx.work, "pkgs")
